@@ -299,8 +299,9 @@ func (m *BasicMutableWorld) RemoveTag(id b6.FeatureID, key string) error {
 			}
 		}
 		f.RemoveTag(key)
+		return nil
 	}
-	return nil
+	return fmt.Errorf("No feature with ID %s", id)
 }
 
 func NewMutableWorldFromSource(o *BuildOptions, source FeatureSource) (b6.World, error) {
